@@ -94,6 +94,7 @@ def run(ck, fb):
     r01n(ck, fb)
     r01o(ck, fb)
     r01s(ck, fb)
+    r01t(ck, fb)
     ck.borrow('rules.c19', {'R19h': 'R01q'}, 'a request served while the restore is still running is applied on top of a state that is about to be overwritten by it')
     ck.borrow('rules.c20', {'R20g': 'R01p'}, 'a snapshot whose header record is longer than one read chunk must still be readable at start-up, otherwise everything it covers is missing after the restart')
     ck.borrow('rules.c08', {'R08h': 'R01k'}, 'the start-up restore loads the catalogued snapshot whatever the last-applied index says')
@@ -801,11 +802,14 @@ def r01n(ck, fb):
     ck.floor('R01n', 'reads of a rebuilt index by replayed requests', n, 2)
 
 
+SNAPSHOT_FILTERS_CONFIG = [
+    (r'ConfigActor::applied_value\) is Some', 'a key that only exists as a temporary value (routed publish, log entry not applied here yet) is not state-machine state (R01t decides when the helper answers None)')]
 SNAPSHOT_FILTERS = {   # builder -> conditions an entry may have to meet to be written (anything else is a dropped entry), with the reason
     'rnacos::namespace::NamespaceActor::build_snapshot': [
         (r'is_empty\(\)', 'the default namespace (empty id) is implicit'),
         (r'BitAnd', 'only user-created namespaces are stored, weak ones are rebuilt from their references (R01l)'),
         (r'already_sync_from_config', 'the marker record is written once the old data was migrated (R01m)')],
+    'rnacos::config::core::ConfigActor::build_snapshot': SNAPSHOT_FILTERS_CONFIG,
     'rnacos::naming::core::NamingActor::build_snapshot': [
         (r'^!?ephemeral$|\.ephemeral$', 'only persistent instances belong to the raft state')],
 }
@@ -845,3 +849,60 @@ def r01s(ck, fb, R='R01s'):
                        'restarts from it or is caught up with it serves less (keys, history, type, description) than before' % (b.name, extra),
                        'unconditional%s' % (' apart from: ' + '; '.join(w for _r, w in allowed) if allowed else ''))
     ck.floor(R, 'per-entry snapshot records', n, 8)
+
+
+def r01t(ck, fb, R='R01t'):
+    ck.rule(R, 'the snapshot holds applied state only: a config entry that is marked tmp (the content a follower took over from a routed publish '
+               'before the log entry was applied) is not written with that content - the record is built from the newest history item, and the entry '
+               'is left out only when it has no history at all. Written as it is, the value comes back with tmp == false, the replay of the '
+               'publish finds "same md5" and returns early: the publish has no history entry on a node that restarted from that snapshot')
+    CAB = 'rnacos::config::core::ConfigActor::build_snapshot'
+    b = ck.body(CAB, R)
+    if not b:
+        return
+    reg = util.region(fb, b)
+    tmp_tests = []
+    for x in reg:
+        for (s0, d0, lab0, t0) in cfg.switch_edges(x):
+            d = cfg.strip_calls(x, cfg.describe_operand(x, t0['discr']))
+            while d['k'] == 'un' and d.get('op') == 'Not':
+                d = cfg.strip_calls(x, cfg.describe_operand(x, d['a']))
+            if d['k'] == 'place' and d['fields'][-1:] == ['tmp']:
+                tmp_tests.append((x, s0))
+    ck.require(bool(tmp_tests), R, 'build_snapshot:looks-at-tmp', b.where(),
+               'ConfigActor::build_snapshot writes every cache entry as it is, also one whose content is only a temporary value: after a restart from '
+               'that snapshot the replayed publish is a no-op (same md5, tmp lost) and its history entry is missing')
+    if not tmp_tests:
+        return
+    # on the tmp path the content comes from the history
+    ok = False
+    for x in reg:
+        th = Taint(x, place_src=field_place_src('histories'))
+        for (o, f, bb, st) in x.field_writes():
+            if f == 'content' and o.endswith('config::core::ConfigValue') and any(th.op_tainted(y) for y in rv_operands(st['rv'])):
+                if any(a[0] == 'field' and a[1][-1:] == ['tmp'] for a in cfg.guard_atoms(x, bb)):
+                    ok = True
+    ck.require(ok, R, 'build_snapshot:tmp->last-applied-content', b.where(),
+               'on the tmp path the record is not rebuilt from the newest history item (the last applied content)')
+    # an entry is left out only when it is tmp and has no history
+    for x in reg:
+        if x is b or not x.local_ty(0).startswith('std::option::Option<'):
+            continue
+        nones = [i for (i, j, st) in x.aggregates(r'^std::option::Option$', 'None') if st['d'] == 0]
+        nones += [s1.bb for s1 in x.sites if (s1.callee or '').endswith('FromResidual::from_residual') and s1.dst == 0]
+        for i in nones:
+            atoms = cfg.guard_atoms(x, i)
+            t_ok = any(a[0] == 'field' and a[1][-1:] == ['tmp'] and a[2] is True for a in atoms)
+            def on_hist(a):
+                # the tested Option is (the `?` of) histories.last()
+                d = a[3]
+                for _ in range(4):
+                    if d.get('k') == 'call' and (cfg.callee_name(d['term']) or '').endswith('Try>::branch') and d['term']['args']:
+                        d = cfg.describe_operand(x, d['term']['args'][0])
+                    else:
+                        break
+                return bool(re.search(r'::last|::last_mut|::first', cfg.fmt_desc(d))) and 'histories' in str(cfg.origin_fields(x, d['term']['args'][0]) if d.get('k') == 'call' and d['term']['args'] else '')
+            h_ok = any(a[0] in ('variant',) and a[2] in ('None', 'Break') and on_hist(a) for a in atoms) or \
+                any(a[0] == 'call' and (a[1] or '').endswith('is_empty') and a[2] is True for a in atoms)
+            ck.require(t_ok and h_ok, R, 'build_snapshot:left-out-only-if-never-applied', x.where(i),
+                       'an entry can be left out of the snapshot although it has applied history (%s)' % [cfg.fmt_atom(a) for a in atoms])
